@@ -118,6 +118,83 @@ theorem encodeData_pending_le {o : Oracle} {B : Nat} (hB : OracleBounded o B) {s
     rw [hc] at hm
     exact Nat.le_trans h2 (Nat.div_le_div_right (by omega))
 
+/-! ### what the storage sizing of the machine itself guarantees (no hypothesis on the oracle) -/
+
+/-- a bound `M` valid for one whole call: the staging buffer as it is, and as `get_brotli_storage` can
+make it in this call (`2 * span + 527` with `span ≤ input_pos_ + available_in − last_flush_pos_`;
+`2 * block + 503` on the one-shot path) -/
+def Cap (M : Nat) (s : St) (io : Io) : Prop :=
+  s.storageSize ≤ M ∧ 2 * (s.inputPos + io.availIn - s.lastFlushPos) + 527 ≤ M ∧ 2 * io.availIn + 527 ≤ M
+
+/-- the part of `Cap` that does not look at the input still on offer: preserved by every step that
+consumes no input -/
+def MCap (M : Nat) (s : St) : Prop := s.storageSize ≤ M ∧ 2 * (s.inputPos - s.lastFlushPos) + 527 ≤ M
+
+theorem mcap_of_cap {M : Nat} {s : St} {io : Io} (h : Cap M s io) : MCap M s := ⟨h.1, by have := h.2.1; omega⟩
+
+/-- the two `storage[1 + (storage_ix >> 3)]` checks of `encPayload`: what is left pending fits the
+staging buffer with two bytes to spare — whatever the oracle answered -/
+theorem encPayload_pending_store {s s' : St} {ans : Ans} {w0 w : Writer} {hdr : Nat} {il ff res : Bool}
+    (h : encPayload s ans w0 w hdr il ff = .ok (s', res)) : s'.pending.length + 2 ≤ s.storageSize := by
+  have hw := wholeBytes_length w
+  have hfull := wholeBytes_length (w ++ ans.bits.drop (w.drop w0.length).length)
+  unfold encPayload at h
+  simp only at h
+  split_all h
+  all_goals first
+    | (simp at h; done)
+    | (simp only [Out.ok.injEq, Prod.mk.injEq] at h; obtain ⟨rfl, rfl⟩ := h
+       simp only [List.length_take] at *; omega)
+
+theorem encRest_pending_store {m : St × Writer × Nat} {ans : Ans} {w0 : Writer} {bytes : Nat} {il ff res : Bool} {s' : St}
+    (h : encRest m ans w0 bytes il ff = .ok (s', res)) : s'.pending.length + 2 ≤ m.1.storageSize := by
+  unfold encRest at h
+  split at h
+  · simp at h
+  · simp at h
+  · rename_i s2 w hdr hpre
+    have := encPayload_pending_store h
+    rw [(encPrelude_frame hpre).2.2.2.1] at this
+    exact this
+
+theorem wantStorage_le {s : St} (h1 : s.lastFlushPos ≤ s.lastProcessedPos) (h2 : s.lastProcessedPos ≤ s.inputPos)
+    (h3 : s.inputPos < two64) : wantStorage s ≤ 2 * (s.inputPos - s.lastFlushPos) + 527 := by
+  unfold wantStorage St.unprocessed
+  rw [wsub64_eq h2 h3, wsub64_eq (Nat.le_trans h1 h2) h3]
+  refine Nat.le_trans (Nat.mod_le _ _) ?_
+  have := Nat.mod_le (s.inputPos - s.lastProcessedPos) two32
+  omega
+
+/-- **size of one encode, from the machine's own storage sizing**: after a successful `encode_data` the
+pending bytes fit the staging buffer, which is the old one or the `get_brotli_storage` request -/
+theorem encodeData_store {o : Oracle} {s s' : St} {site : Nat} {il ff : Bool} {req : Req}
+    (h : encodeData o s site il ff = .ok (s', true, req))
+    (h1 : s.lastFlushPos ≤ s.lastProcessedPos) (h2 : s.lastProcessedPos ≤ s.inputPos) (h3 : s.inputPos < two64) :
+    s'.pending.length + 2 ≤ s'.storageSize ∧
+    s'.storageSize ≤ max s.storageSize (2 * (s.inputPos - s.lastFlushPos) + 527) ∧
+    s.lastFlushPos ≤ s'.lastFlushPos ∧ s'.inputPos = s.inputPos := by
+  have hpos := (encodeData_pos h h1 h2 h3).2.2.2
+  obtain ⟨f, _⟩ := encodeData_frame h
+  rw [St.frame_eq_iff] at f
+  obtain ⟨_, hc⟩ := encodeData_ok_cases h
+  rcases hc with ⟨_, hh, _⟩ | ⟨_, _, hh, _⟩ | ⟨_, _, hrest⟩
+  · simp at hh
+  · simp at hh
+  · have hp := encRest_pending_store hrest
+    have hst : s'.storageSize = (encEntry s il).storageSize := by
+      rw [(encRest_frame hrest).2.2.2.1, (encMagic_frame (encEntry s il) s.carry).2.2.2.2.2.1]
+    rw [(encMagic_frame (encEntry s il) s.carry).2.2.2.2.2.1] at hp
+    have hgrow : (encEntry s il).storageSize ≤ max s.storageSize (wantStorage s) := by
+      unfold encEntry growStorage
+      split
+      · exact Nat.le_max_right _ _
+      · exact Nat.le_max_left _ _
+    have hwant := wantStorage_le h1 h2 h3
+    refine ⟨by rw [hst]; exact hp, ?_, hpos, f.2.1⟩
+    rw [hst]
+    refine Nat.le_trans hgrow ?_
+    omega
+
 /-! ### after a successful encode everything offered so far counts as processed -/
 
 theorem encPayload_lp {s s' : St} {ans : Ans} {w0 w : Writer} {hdr : Nat} {il ff res : Bool}
@@ -331,11 +408,12 @@ theorem canEnc_congr {op : Nat} {s s' : St} {io io' : Io} (h1 : s'.streamState =
   unfold canEnc remainingInputBlockSize St.unprocessed
   rw [h1, blockSize_congr h2, h3, h4, h5]
 
-theorem slowStep_decreases {o : Oracle} {op B M : Nat} {s s' : St} {io io' : Io} (hI : Inv s)
+theorem slowStep_decreases {o : Oracle} {op M : Nat} {s s' : St} {io io' : Io} (hI : Inv s)
     (hw : s.inputPos + io.availIn < two64) (hnp : s.streamState ≠ .processing → io.availIn = 0)
-    (hB : OracleBounded o B) (hM : (14 + 176 + B) / 8 ≤ M) (hl : s.lastBytesBits ≤ 14) (hop : op ≤ 2)
+    (hl : s.lastBytesBits ≤ 14) (hop : op ≤ 2)
     (h : slowStep o op s io = .ok (s', io', .cont)) :
-    slowPot op M s' io' < slowPot op M s io ∧ s'.lastBytesBits ≤ 14 := by
+    (Cap M s io → slowPot op M s' io' < slowPot op M s io ∧ Cap M s' io') ∧
+    (MCap M s → io'.availIn = io.availIn → MCap M s') ∧ s'.lastBytesBits ≤ 14 := by
   unfold slowStep at h
   simp only at h
   split at h
@@ -347,11 +425,25 @@ theorem slowStep_decreases {o : Oracle} {op B M : Nat} {s s' : St} {io io' : Io}
       · rename_i s1 hcp
         simp only [Out.ok.injEq, Prod.mk.injEq] at h
         obtain ⟨rfl, rfl, _⟩ := h
-        obtain ⟨c1, c2, c3, c4, c5, c6, c7, c8, c9, c10, c11, _⟩ := copy_fields hI.init hcp
+        obtain ⟨c1, c2, c3, c4, c5, c6, c7, c8, c9, c10, c11, _, c13, _⟩ := copy_fields hI.init hcp
         have hn : 1 ≤ min (remainingInputBlockSize s) io.availIn := by
           have := hc.1; have := hc.2; omega
         have hle : min (remainingInputBlockSize s) io.availIn ≤ io.availIn := Nat.min_le_right _ _
-        refine ⟨?_, by rw [c11]; exact hl⟩
+        refine ⟨?_, fun _ hav => by exfalso; simp only at hav; omega, by rw [c11]; exact hl⟩
+        intro hC
+        rename_i hnle
+        have hcap : Cap M s1 { input := io.input.drop (min (remainingInputBlockSize s) io.availIn), availIn := io.availIn - min (remainingInputBlockSize s) io.availIn, availOut := io.availOut, out := io.out, reqs := io.reqs } := by
+          obtain ⟨q1, q2, q3⟩ := hC
+          have hlen : (io.input.take (min (remainingInputBlockSize s) io.availIn)).length = min (remainingInputBlockSize s) io.availIn := by
+            rw [List.length_take]; omega
+          have hip : s1.inputPos = s.inputPos + min (remainingInputBlockSize s) io.availIn := by
+            rw [c2, hlen]; exact Nat.mod_eq_of_lt (by omega)
+          refine ⟨by rw [c13]; exact q1, ?_, ?_⟩
+          · show 2 * (s1.inputPos + (io.availIn - min (remainingInputBlockSize s) io.availIn) - s1.lastFlushPos) + 527 ≤ M
+            rw [hip, c6]; omega
+          · show 2 * (io.availIn - min (remainingInputBlockSize s) io.availIn) + 527 ≤ M
+            omega
+        refine ⟨?_, hcap⟩
         unfold slowPot padB
         rw [c9, c11]
         simp only
@@ -374,10 +466,12 @@ theorem slowStep_decreases {o : Oracle} {op B M : Nat} {s s' : St} {io io' : Io}
       rename_i s1 io1 hp
       simp only [Out.ok.injEq, Prod.mk.injEq] at h
       obtain ⟨rfl, rfl, _⟩ := h
-      obtain ⟨f, a1, a2, _, _, _, _, _, fa, _⟩ := push_frame hp
+      obtain ⟨f, a1, a2, _, a5, _, _, _, fa, _⟩ := push_frame hp
       rw [St.frame_eq_iff] at f
       obtain ⟨l1, l2⟩ := push_lowers hl hp
-      refine ⟨?_, Nat.le_trans l2 hl⟩
+      refine ⟨?_, fun hK _ => by unfold MCap at hK ⊢; rw [a5, f.2.1, a1]; exact hK, Nat.le_trans l2 hl⟩
+      intro hC
+      refine ⟨?_, by unfold Cap at hC ⊢; rw [a5, f.2.1, fa, a1]; exact hC⟩
       unfold slowPot
       have hce : canEnc op s1 io1 ↔ canEnc op s io := canEnc_congr f.2.2.2.1 (by rw [f.1]) f.2.1 a2 fa
       rw [fa]
@@ -402,15 +496,36 @@ theorem slowStep_decreases {o : Oracle} {op B M : Nat} {s s' : St} {io io' : Io}
           obtain ⟨rfl, rfl, _⟩ := h
           obtain ⟨f, _, _, _, _⟩ := encodeData_frame henc
           rw [St.frame_eq_iff] at f
-          obtain ⟨k1, k2, k3, _, _, k6, _, k8, k9, k10⟩ := markAfterEncode_fields s2 (decide (io.availIn = 0 ∧ op = 2)) (decide (io.availIn = 0 ∧ op = 1))
-          have hpl := encodeData_pending_le hB henc
-          rw [u14] at hpl
+          obtain ⟨k1, k2, k3, _, k5, k6, _, k8, k9, k10⟩ := markAfterEncode_fields s2 (decide (io.availIn = 0 ∧ op = 2)) (decide (io.availIn = 0 ∧ op = 1))
+          have hsto := encodeData_store henc hI2.fl_le hI2.lp_le hI2.ip_lt
+          have hus : (updateSizeHint s io.availIn).storageSize = s.storageSize := by
+            unfold updateSizeHint; split <;> rfl
+          have hms : (markAfterEncode s2 (decide (io.availIn = 0 ∧ op = 2)) (decide (io.availIn = 0 ∧ op = 1))).storageSize = s2.storageSize := by
+            unfold markAfterEncode
+            split
+            · rfl
+            · split <;> rfl
           have hlp := encodeData_lp henc hI2.fl_le hI2.lp_le hI2.ip_lt
           have hlbb : s2.lastBytesBits ≤ 14 := by
             rcases encodeData_lbb henc with h8 | h8
             · omega
             · rw [h8, u14]; exact hl
-          refine ⟨?_, by rw [k9]; exact hlbb⟩
+          obtain ⟨t1, t2, t3, t4⟩ := hsto
+          rw [hus, u6, u10] at t2
+          rw [u10] at t3
+          have hmc : MCap M s → MCap M (markAfterEncode s2 (decide (io.availIn = 0 ∧ op = 2)) (decide (io.availIn = 0 ∧ op = 1))) := by
+            intro hK
+            obtain ⟨q1, q2⟩ := hK
+            refine ⟨by rw [hms]; exact Nat.le_trans t2 (Nat.max_le.mpr ⟨q1, q2⟩), ?_⟩
+            rw [k2, k5, t4, u6]; omega
+          refine ⟨?_, fun hK _ => hmc hK, by rw [k9]; exact hlbb⟩
+          intro hC
+          obtain ⟨q1, q2, q3⟩ := hC
+          have hs2M : s2.storageSize ≤ M := by
+            refine Nat.le_trans t2 (Nat.max_le.mpr ⟨q1, ?_⟩)
+            omega
+          have hplM : s2.pending.length ≤ M := by omega
+          refine ⟨?_, ⟨by rw [hms]; exact hs2M, by show 2 * ((markAfterEncode s2 _ _).inputPos + io.availIn - (markAfterEncode s2 _ _).lastFlushPos) + 527 ≤ M; rw [k2, k5, t4, u6]; omega, q3⟩⟩
           -- before: an encode was due; after: not any more
           have hbefore : canEnc op s io := by
             refine ⟨hcond.2.1, ?_⟩
@@ -449,9 +564,6 @@ theorem slowStep_decreases {o : Oracle} {op B M : Nat} {s s' : St} {io io' : Io}
           have hpad : padB (markAfterEncode s2 (decide (io.availIn = 0 ∧ op = 2)) (decide (io.availIn = 0 ∧ op = 1))) ≤ 4 := by
             unfold padB; split <;> omega
           have hp0 : s.pending.length = 0 := hcond.1
-          have hplM : s2.pending.length ≤ M := by
-            refine Nat.le_trans hpl (Nat.le_trans (Nat.div_le_div_right ?_) hM)
-            omega
           have e2 : (2 * io.availIn + 1) * (M + 8) = 2 * io.availIn * (M + 8) + (M + 8) := by
             rw [Nat.add_mul, Nat.one_mul]
           simp only [Nat.add_zero]
